@@ -386,7 +386,8 @@ Proof.
     destruct (is_syn m); [split; [exact Hk | constructor; [exact I | constructor]]|].
     destruct (needs_retry st m).
     + cbn [fst snd]. split; [destruct (b_closing st); [|destruct (is_fin m)]; exact Hk | apply quiet_ok, q_retry_msg].
-    + destruct (recv_data_link c st m Hk) as [H1 H2]. split; [exact H1 | apply quiet_ok, H2].
+    + destruct (is_fin m); [cbn [fst snd]; split; [exact Hk | apply quiet_ok, q_retry_msg]|].
+      destruct (recv_data_link c st m Hk) as [H1 H2]. split; [exact H1 | apply quiet_ok, H2].
   - destruct (b_mode st), (b_wait st); (split; [exact Hk | constructor]).
   - destruct (b_timer st && flush_poll st); (split; [exact Hk | constructor]).
   - destruct (flush_enabled st); [|split; [exact Hk | constructor]].
